@@ -22,6 +22,9 @@ import (
 	"math/rand"
 	"net"
 	"os"
+	"runtime"
+	"strconv"
+	"strings"
 	"sync/atomic"
 	"syscall"
 	"testing"
@@ -120,6 +123,7 @@ type sim struct {
 	refusalJudged bool
 	pongJudged    int
 	cleaned       bool
+	draining      bool // the harness is unblocking goroutines of a recorded known finding
 	slowFiredSeen int
 	appLog        []string
 	appLogged     int
@@ -138,6 +142,12 @@ func run(r *simkit.Run) {
 	s.y = &yielder{armed: map[string]bool{}, hits: map[string]int{}}
 	current.Store(s.y)
 	defer s.cleanup()
+	if d := os.Getenv("PEERSIM_DUMP"); d != "" {
+		// debugging aid: write the event log of every run to a file
+		defer func() {
+			os.WriteFile(d+"/"+strconv.FormatUint(r.Seed, 10)+"."+strconv.Itoa(runtime.GOMAXPROCS(0))+".log", []byte(strings.Join(r.Lines(), "\n")+"\n"), 0o644)
+		}()
+	}
 
 	s.drawKnobs()
 	s.setup()
@@ -364,6 +374,15 @@ func (s *sim) ownNonce() (uint64, bool) {
 
 func (s *sim) established() bool { return s.estStep >= 0 }
 
+// verackReturned: the OnVerAck callback has fired and returned, i.e. nothing
+// the application does keeps the negotiation from finishing.
+func (s *sim) verackReturned() bool {
+	s.ls.mu.Lock()
+	n := s.ls.verackDone
+	s.ls.mu.Unlock()
+	return n > 0
+}
+
 // ---- steps ----
 
 func (s *sim) beginStep(kind string, pure bool) {
@@ -397,7 +416,7 @@ func (s *sim) idleCallers() []*caller {
 
 func (s *sim) newOp(c *caller, kind opKind) *op {
 	o := &op{id: len(s.ops), caller: c.id, idx: c.n, kind: kind, step: s.step,
-		assoc: s.associated, estAtIssue: s.established()}
+		assoc: s.associated, estAtIssue: s.verackReturned()}
 	c.n++
 	s.ops = append(s.ops, o)
 	return o
@@ -606,11 +625,14 @@ func (s *sim) stepDeliver() bool {
 	for rm.fedTo < rm.next && rm.items[rm.fedTo].end <= rm.sent {
 		it := rm.items[rm.fedTo]
 		before = append(before, rm.model.phase)
-		rm.model.feed(it, s.k.allowSelf)
-		if it.kind == itVersion && rm.model.phase == phExpectVerack {
+		rm.model.feed(it, s.k.allowSelf, s.k.effPV)
+		// necessary conditions for any handshake, whatever the model thinks of
+		// the rest of the script: a complete well-formed version message and a
+		// complete verack message have been handed to the peer
+		if it.kind == itVersion {
 			s.hVersionDelivered.Store(true)
 		}
-		if it.kind == itVerack && rm.model.phase == phEstablished && before[len(before)-1] == phExpectVerack {
+		if it.kind == itVerack {
 			s.hVerackDelivered.Store(true)
 		}
 		completed = append(completed, it)
@@ -761,7 +783,7 @@ func (s *sim) stepRelease() bool {
 		return false
 	}
 	s.beginStep("release", false)
-	site := s.y.release(s.r.C.Intn(n, "release"))
+	site := s.y.release(s.r.C.Intn(n, "release"), s.disconnectFlagged())
 	s.endStep("%s", site)
 	return true
 }
@@ -840,6 +862,10 @@ func (s *sim) mainLoop() {
 			if s.k.chunkMode != 0 {
 				wDeliver = 600
 			}
+		}
+		if !s.established() && wDeliver > 0 {
+			// let most connections get through their handshake
+			wDeliver, wAdv, wCall = wDeliver*3, 3, 6
 		}
 		if s.k.burst {
 			wBurst = 5
@@ -930,7 +956,7 @@ func (s *sim) finish() {
 	}
 	// everything parked continues now
 	s.beginStep("release-all", false)
-	s.y.shutdown()
+	s.y.shutdown(s.disconnectFlagged())
 	s.endStep("")
 	if s.discStep < 0 {
 		// every caller is stuck and nothing disconnected the peer: the driver
@@ -954,7 +980,7 @@ func (s *sim) cleanup() {
 		return
 	}
 	s.cleaned = true
-	s.y.shutdown()
+	s.y.shutdown(true)
 	if s.p != nil {
 		s.p.Disconnect()
 	}
